@@ -382,3 +382,5 @@ func zzItems(tag string) int {
 // URL accessors for harnesses that use a nil *URL (net/url is not interpreted)
 func zzURLString(u *URL) string   { return "http://node" }
 func zzURLHostname(u *URL) string { return "node" }
+
+func zzMustURL(provided string) *URL { return &URL{provided: provided} }
